@@ -192,6 +192,10 @@ fn n_stmts(v: &mut Vec<Stmt>, f: &mut dyn FnMut(Node<'_>)) {
     f(Node::Stmts(v));
 }
 
+pub fn walk_body(b: &mut Vec<Stmt>, f: &mut dyn FnMut(Node<'_>)) {
+    n_stmts(b, f);
+}
+
 pub fn walk_nodes(p: &mut Prog, f: &mut dyn FnMut(Node<'_>)) {
     for b in bodies(p) {
         n_stmts(b, f);
